@@ -208,6 +208,37 @@ pub const GROUPS: &[(&str, &[(&str, &[Sel])])] = &[
             ],
         )],
     ),
+    // server address list of the connect tokens
+    (
+        "NcAddr",
+        &[
+            (
+                "renetcode/src/lib.rs",
+                &[Sel::Const("NETCODE_ADDRESS_NONE"), Sel::Const("NETCODE_ADDRESS_IPV4"), Sel::Const("NETCODE_ADDRESS_IPV6")],
+            ),
+            ("renetcode/src/token.rs", &[Sel::Fn("write_server_addresses"), Sel::Fn("read_server_addresses")]),
+        ],
+    ),
+    // connect tokens: (de)serialisation of the public and the private part
+    (
+        "NcConnToken",
+        &[
+            ("renetcode/src/lib.rs", &[Sel::Const("NETCODE_KEY_BYTES"), Sel::Const("NETCODE_ADDITIONAL_DATA_SIZE")]),
+            ("renetcode/src/error.rs", &[Sel::From("NetcodeError", "Error")]),
+            (
+                "renetcode/src/token.rs",
+                &[
+                    Sel::Struct("ConnectToken"),
+                    Sel::Struct("PrivateConnectToken"),
+                    Sel::Method("ConnectToken", "write"),
+                    Sel::Method("ConnectToken", "read"),
+                    Sel::Method("PrivateConnectToken", "write"),
+                    Sel::Method("PrivateConnectToken", "read"),
+                    Sel::Fn("get_additional_data"),
+                ],
+            ),
+        ],
+    ),
     // renetcode packets: body reader / writer (the type shares its simple name with renet's `Packet`)
     (
         "NcPacket",
@@ -261,4 +292,12 @@ pub const WHILE_FUEL: &[(&str, &str, &[&str])] = &[
 
 /// External types that are not translated but mapped to an opaque RustSem type
 /// (last path segments, Lean name).
-pub const OPAQUE_TYPES: &[(&[&str], &str)] = &[(&["io", "Error"], "RustSem.IoError"), (&["SocketAddr"], "RustSem.SocketAddr")];
+pub const OPAQUE_TYPES: &[(&[&str], &str)] = &[
+    (&["io", "Error"], "RustSem.IoError"),
+    (&["SocketAddr"], "RustSem.SocketAddr"),
+    // `std::net`: a `SocketAddrV4` / `SocketAddrV6` is a `SocketAddr` of that variant (bound by `SocketAddr::V4(a)`),
+    // `Ipv4Addr` / `Ipv6Addr` are their octets (see `conv_ty`)
+    (&["SocketAddrV4"], "RustSem.SocketAddrV4"),
+    (&["SocketAddrV6"], "RustSem.SocketAddrV6"),
+    (&["IpAddr"], "RustSem.IpAddr"),
+];
